@@ -63,7 +63,7 @@ Real(u, vp) == UCfg[u].base \o vp
 
 NoH == [v |-> "", a |-> NoArg, x |-> "", n |-> 0, pc |-> "", port |-> 0, prio |-> 0, viewed |-> {}, failed |-> FALSE]
 NoW == [v |-> "", p |-> NoPath, st |-> "", off |-> 0, sock |-> FALSE, fopen |-> FALSE, fdone |-> FALSE,
-        seeked |-> FALSE, pos |-> 0, dl |-> 0, listed |-> FALSE, had |-> FALSE]
+        seeked |-> FALSE, pos |-> 0, dl |-> 0, listed |-> FALSE, had |-> FALSE, ub |-> ""]
 
 InitSess == [ph |-> "idle", ceof |-> FALSE, user |-> "", logged |-> FALSE, acq |-> FALSE,
              cwd |-> <<>>, rnfr |-> NoPath, rest |-> 0, ttype |-> "", lsn |-> 0, dc |-> "none", xd |-> 0,
@@ -214,7 +214,7 @@ MaySpawn(r) == r.ab # "done" \/ "abor-before-150" \in KF
 
 Spawn(r, t) ==
   LET parked == r.dc = "parked" IN
-  [NoW EXCEPT !.v = r.h.v, !.p = RPath(r), !.st = IF parked THEN "run" ELSE "wait",
+  [NoW EXCEPT !.v = r.h.v, !.p = RPath(r), !.ub = r.user, !.st = IF parked THEN "run" ELSE "wait",
               !.off = r.h.n,
               !.sock = parked, !.had = parked,
               !.dl = IF parked THEN (IF SockT > 0 THEN t + SockT ELSE 0)
@@ -385,6 +385,8 @@ PayloadOk(s, code, pay) ==
         /\ (IsFileT(tree, p) => pay.fsize = Len(tree.f[p])))
 
 Confined(r, p) == r.user # "" /\ IsPrefix(UCfg[r.user].base, p)
+\* a transfer accepted while logged in goes on under the user it was accepted for, even across a re-USER
+ConfinedW(w, p) == w.ub # "" /\ IsPrefix(UCfg[w.ub].base, p)
 
 ModeFor(w) == IF w.v = "retr" THEN "rb" ELSE IF w.off > 0 THEN "r+b" ELSE IF w.v = "appe" THEN "ab" ELSE "wb"
 
@@ -409,12 +411,12 @@ FsQuery(s, t, p, res) ==
       byH(r) == r.h.v # "" /\ r.h.v # "abor" /\ ~r.h.failed
       byW(r) == r.w.v # "" /\ r.w.st = "run" /\ r.w.sock
   IN
-  /\ r0.ph = "open" /\ r0.logged /\ At(t) /\ Confined(r0, p)
-  /\ \/ /\ byH(r0)
+  /\ r0.ph = "open" /\ At(t)
+  /\ \/ /\ byH(r0) /\ r0.logged /\ Confined(r0, p)
         /\ IF res # "fault" THEN Upd(s, r0)
            ELSE \E rst \in (IF r0.h.v \in TransferVerbs THEN {r0.rest, 0} ELSE {r0.rest}) :
                   Upd(s, [r0 EXCEPT !.h.failed = TRUE, !.rest = rst])
-     \/ \E r1 \in Views(r0, t) : byW(r1) /\ Upd(s, IF res = "fault" THEN [r1 EXCEPT !.w.st = "failed"] ELSE r1)
+     \/ \E r1 \in Views(r0, t) : byW(r1) /\ ConfinedW(r1.w, p) /\ Upd(s, IF res = "fault" THEN [r1 EXCEPT !.w.st = "failed"] ELSE r1)
   /\ UNCHANGED <<tree, uused, used, pool, table, srv>>
 
 \* file operations of a transfer worker
@@ -422,7 +424,7 @@ FsFile(s, t, op, p, res, mode, off, data) ==
   \E r \in Views(ss[s], t) : LET w == r.w IN
   /\ r.ph \in {"open", "dead"} /\ w.v \in TransferVerbs /\ At(t) /\ p = w.p
   /\ CASE op = "open" ->
-            /\ w.st = "run" /\ w.sock /\ ~w.fopen /\ ~w.fdone /\ mode = ModeFor(w) /\ Confined(r, p)
+            /\ w.st = "run" /\ w.sock /\ ~w.fopen /\ ~w.fdone /\ mode = ModeFor(w) /\ ConfinedW(w, p)
             /\ IF res = "fault" THEN Upd(s, [r EXCEPT !.w.st = "failed"]) /\ UNCHANGED tree
                ELSE /\ (res = "ok") = OpenOk(tree, p, mode)
                     /\ IF res = "ok"
